@@ -44,5 +44,5 @@ MANIFEST = dict(
          "negamax / forced-result solver judges value, first move, AnalyzeAll's set and the win/loss verdicts on fresh and reused engines.",
     ref='5.5', technique='Coq proof (PVS = negamax) + extracted-model/implementation differential over call histories + exhaustive negamax oracle',
     note="Trusted: Coq kernel, extraction, transcription of ai/minimax.go and ai/moves.go (validated by execution), generators. "
-         "The TABLE CLAUSE is proved (C05_table_win_sound_complete, C05_table_valid_preserved, C05_table_search_verdict; SearchTable1-5.v): MakePrecise options with a table of any size and content, fresh engine or any history of calls cancelled anywhere or never: a report beyond the win threshold is a real forced win/loss and a forced win/loss within the reported depth is reported (invariant over the W/L classification, not over exact values: Position.Hash ignores the ply counter that terminal scores depend on), under an explicit NoCollision hypothesis on the touched positions (touch_set), at most 64 pieces, ply + configured depth <= max_terminal_ply, configured depth < 40 (model fuel; the Go code cannot run deeper than ai.maxDepth = 15 without an index panic). For the positions of ONE game (replayed from tak.New) the hash hypothesis is the syntactic one, equal Position.Hash on the touched set implies Position.Equal (C05_table_win_sound_complete_game; W/L invariant under the ply-counter relation sim of PnCong1: C05_table_sim_classification; SearchTable6.v). The soundness half - a reported win or loss is a real forced one - is proved for EVERY configuration without null move (slide reduction, multi-cut, any table, any history, no depth bound: C05_table_sound_any_config; SearchTable7-8.v); completeness is false there by design, and null-move configurations stay with the oracle. Symmetry de-duplication (Cfg.DedupSymmetry) is MODELLED (SearchDedup.v: pvSearch's per-node cache of symmetry-class hashes, active below ply 4; Search.v unchanged and provably equal to the new model with the option off, C05_dedup_off) and such configurations run as model cases of the check (L1 PV/value/depth, L2 counters); dedup_value_preserving is PROVED for precise options without a table and an evaluator invariant under the eight images (EvaluateWinner proved to be one; C05_dedup_value_preserving_winner/_sym, via C05_dedup_nmx_image: exhaustive negamax is invariant under the images), under dedup_nocollision on the touched set. FINDING: the built-in evaluator MakeEvaluator(size, nil) is not invariant under the board symmetries (C05_dedup_default_eval_not_symmetric; same numbers from the real code, notes/finding_default_eval_asymmetric.txt: CountThreats depends on the enumeration order of the groups), so the property's 'symmetric evaluator' excludes it. All other theorems are about the option OFF. AnalyzeAll's set is proved for every cancellation point (soundness always, completeness when not reported as cancelled). Found and repaired through this property: a cancelled AnalyzeAll listed moves whose searches were abandoned (known_findings: analyze-all-lists-unsearched-move). "
+         "The TABLE CLAUSE is proved (C05_table_win_sound_complete, C05_table_valid_preserved, C05_table_search_verdict; SearchTable1-5.v): MakePrecise options with a table of any size and content, fresh engine or any history of calls cancelled anywhere or never: a report beyond the win threshold is a real forced win/loss and a forced win/loss within the reported depth is reported (invariant over the W/L classification, not over exact values: Position.Hash ignores the ply counter that terminal scores depend on), under an explicit NoCollision hypothesis on the touched positions (touch_set), at most 64 pieces, ply + configured depth <= max_terminal_ply, configured depth < 40 (model fuel; the Go code cannot run deeper than ai.maxDepth = 15 without an index panic). For the positions of ONE game (replayed from tak.New) the hash hypothesis is the syntactic one, equal Position.Hash on the touched set implies Position.Equal (C05_table_win_sound_complete_game; W/L invariant under the ply-counter relation sim of PnCong1: C05_table_sim_classification; SearchTable6.v). The soundness half - a reported win or loss is a real forced one - is proved for EVERY configuration without null move (slide reduction, multi-cut, any table, any history, no depth bound: C05_table_sound_any_config; SearchTable7-8.v); completeness is false there by design, and null-move configurations stay with the oracle. Symmetry de-duplication (Cfg.DedupSymmetry) is MODELLED (SearchDedup.v: pvSearch's per-node cache of symmetry-class hashes, active below ply 4; Search.v unchanged and provably equal to the new model with the option off, C05_dedup_off) and such configurations run as model cases of the check (L1 PV/value/depth, L2 counters); dedup_value_preserving is PROVED for precise options without a table and an evaluator invariant under the eight images (EvaluateWinner proved to be one; C05_dedup_value_preserving_winner/_sym, via C05_dedup_nmx_image: exhaustive negamax is invariant under the images), under dedup_nocollision on the touched set. FINDING: the built-in evaluator MakeEvaluator(size, nil) is not invariant under the board symmetries (C05_dedup_default_eval_not_symmetric; same numbers from the real code, notes/finding_default_eval_asymmetric.txt: CountThreats depends on the enumeration order of the groups), so the property's 'symmetric evaluator' excludes it. The soundness half of the table clause is proved for the dedup-capable model too (C05_dedup_table_sound_any_config: any configuration without null move, any table, any history; the forced-result classification is invariant under the images, C05_dedup_cls_image). The remaining theorems are about the option OFF. AnalyzeAll's set is proved for every cancellation point (soundness always, completeness when not reported as cancelled). Found and repaired through this property: a cancelled AnalyzeAll listed moves whose searches were abandoned (known_findings: analyze-all-lists-unsearched-move). "
          "The model's loops over the move generator are bounded by the node's own number of generated moves (a first version used a constant fuel of 700, which made the model - not the Go code - stop early on positions with more moves; found by the C17 low-reserve family and removed).")
